@@ -9,10 +9,20 @@ Import ListNotations.
 Require Import Nib.C03.Model Nib.C03.Ref Nib.C03.Spec Nib.C03.ProofsBase Nib.C03.ProofsUndo Nib.C03.ProofsOps.
 Local Open Scope Z_scope.
 
+(** [code_src]: an object whose code is not flagged dirty carries a hash that is already in the
+    (shared) bytecode table, or no code *)
+Definition code_src (kp0 : keeper) (o : obj) : Prop :=
+  dcode o = false -> chash o = 0 \/ k_code kp0 (chash o) = true.
+
 Definition obj_ok (kp0 : keeper) (a : addr) (o : obj) : Prop :=
   (forall k v, origin o k = Some v -> v = k_stor kp0 a k) /\
   (forall k, dirty o k <> None -> origin o k <> None) /\
-  (forall k, dirty o k <> None -> In k (dkeys o)).
+  (forall k, dirty o k <> None -> In k (dkeys o)) /\
+  code_src kp0 o.
+
+(** every account's code is in the bytecode table *)
+Definition code_inv (k : keeper) : Prop :=
+  forall a x, k_acct k a = Some x -> ka_code x = 0 \/ k_code k (ka_code x) = true.
 
 Definition objs_ok (s : sdb) : Prop := forall a o, lookup s a = Some o -> obj_ok (kp s) a o.
 
@@ -28,6 +38,7 @@ Fixpoint jok (j : list entry) (s : sdb) : Prop :=
   match j with [] => True | e :: rest => pre e s /\ jok rest (undo e s) end.
 
 Record Inv (s : sdb) : Prop := {
+  inv_kcode : code_inv (kp s);
   inv_objs : objs_ok s;
   inv_jok : jok (journal s) s;
   inv_dirt : forall a, dirties s a = count_dirty a (journal s);
@@ -35,27 +46,37 @@ Record Inv (s : sdb) : Prop := {
 }.
 
 (** ** objects *)
-Lemma obj_ok_new kp0 a b n c : obj_ok kp0 a (new_obj b n c).
-Proof. split; [|split]; simpl; intros; congruence. Qed.
+Lemma obj_ok_new kp0 a b n c : c = 0 \/ k_code kp0 c = true -> obj_ok kp0 a (new_obj b n c).
+Proof. intro Hc. split; [|split; [|split]]; simpl; intros; try congruence. intros _. exact Hc. Qed.
 
-Lemma obj_ok_kobj kp0 a o : kobj kp0 a = Some o -> obj_ok kp0 a o.
-Proof. unfold kobj. destruct (k_acct kp0 a); [|discriminate]. intros [= <-]. apply obj_ok_new. Qed.
+Lemma obj_ok_kobj kp0 a o : code_inv kp0 -> kobj kp0 a = Some o -> obj_ok kp0 a o.
+Proof.
+  intro Hci. unfold kobj. destruct (k_acct kp0 a) eqn:E; [|discriminate]. intros [= <-].
+  apply obj_ok_new. apply (Hci a k E).
+Qed.
 
 Lemma obj_ok_fields kp0 a o o' :
-  origin o' = origin o -> dirty o' = dirty o -> dkeys o' = dkeys o -> obj_ok kp0 a o -> obj_ok kp0 a o'.
-Proof. intros H1 H2 H3 (A & B & C). unfold obj_ok. rewrite H1, H2, H3. auto. Qed.
+  origin o' = origin o -> dirty o' = dirty o -> dkeys o' = dkeys o ->
+  (dcode o' = true \/ (dcode o' = dcode o /\ chash o' = chash o)) ->
+  obj_ok kp0 a o -> obj_ok kp0 a o'.
+Proof.
+  intros H1 H2 H3 H4 (A & B & C & D). unfold obj_ok. rewrite H1, H2, H3.
+  split; [auto|]. split; [auto|]. split; [auto|].
+  intro Hd. destruct H4 as [H4|[H4 H5]]; [congruence|]. rewrite H5. apply D. congruence.
+Qed.
 
 Lemma obj_ok_with_dirty kp0 a o k v : origin o k <> None -> obj_ok kp0 a o -> obj_ok kp0 a (with_dirty o k v).
 Proof.
-  intros Ho (A & B & C). split; [exact A|]. split; simpl; intros k'; unfold upd; destruct (Z.eqb_spec k' k); subst; auto.
+  intros Ho (A & B & C & D). split; [exact A|]. split; [|split; [|exact D]];
+    simpl; intros k'; unfold upd; destruct (Z.eqb_spec k' k); subst; auto.
   all: try (intros _; destruct (dirty o k) eqn:E; [apply C; congruence|left; reflexivity]).
   all: try (intro H; destruct (dirty o k); [|right]; auto).
 Qed.
 
 Lemma obj_ok_cache_origin kp0 a o k : obj_ok kp0 a o -> obj_ok kp0 a (cache_origin kp0 a o k).
 Proof.
-  intros (A & B & C). unfold cache_origin. destruct (origin o k) eqn:E; [split; auto|].
-  split; [|split]; simpl; intros k'; unfold upd; destruct (Z.eqb_spec k' k); subst; auto; try congruence;
+  intros (A & B & C & D). unfold cache_origin. destruct (origin o k) eqn:E; [split; auto|].
+  split; [|split; [|split; [|exact D]]]; simpl; intros k'; unfold upd; destruct (Z.eqb_spec k' k); subst; auto; try congruence;
     try (intros v [= <-]; reflexivity).
 Qed.
 Lemma obj_ok_cache_state kp0 a o k : obj_ok kp0 a o -> obj_ok kp0 a (cache_state kp0 a o k).
@@ -69,7 +90,7 @@ Lemma origin_cache_state kp0 a o k k' : origin o k' <> None -> origin (cache_sta
 Proof. unfold cache_state. destruct (dirty o k); [auto|apply origin_cache_origin]. Qed.
 Lemma origin_cache_state_self kp0 a o k : obj_ok kp0 a o -> origin (cache_state kp0 a o k) k <> None.
 Proof.
-  intros (_ & B & _). unfold cache_state. destruct (dirty o k) eqn:E; [apply B; congruence|].
+  intros (_ & B & _ & _). unfold cache_state. destruct (dirty o k) eqn:E; [apply B; congruence|].
   unfold cache_origin. destruct (origin o k) eqn:E2; [congruence|]. simpl. rewrite upd_same. congruence.
 Qed.
 
@@ -129,16 +150,17 @@ Proof.
   intros [Hp Hj]. split; [eapply pre_le; eauto|]. eapply IH; [apply undo_le, Hle|exact Hj].
 Qed.
 
-Lemma objs_ok_undo e s : objs_ok s -> pre e s -> objs_ok (undo e s).
+Lemma objs_ok_undo e s : code_inv (kp s) -> objs_ok s -> pre e s -> objs_ok (undo e s).
 Proof.
-  intros Hok Hp a' o'. rewrite kp_undo.
+  intros Hci Hok Hp a' o'. rewrite kp_undo.
   destruct (scalar e) eqn:Hs.
   { rewrite lookup_undo_scalar by exact Hs. apply Hok. }
   destruct e; try discriminate; cbn [undo pre] in *;
     try (rewrite lookup_on_obj; destruct (Z.eqb_spec a' a); [subst|apply Hok];
          destruct (lookup s a) as [o|] eqn:Hl; [|discriminate]; intros [= <-];
-         apply (obj_ok_fields _ _ o); try reflexivity; apply Hok, Hl).
-  - rewrite lookup_del_obj. destruct (Z.eqb_spec a' a); [subst; apply obj_ok_kobj|apply Hok].
+         apply (obj_ok_fields _ _ o); try reflexivity; try (left; reflexivity); try (right; split; reflexivity);
+         apply Hok, Hl).
+  - rewrite lookup_del_obj. destruct (Z.eqb_spec a' a); [subst; apply obj_ok_kobj, Hci|apply Hok].
   - rewrite lookup_set_obj. destruct (Z.eqb_spec a' a); [subst; intros [= <-]; exact Hp|apply Hok].
   - (* storageChange *)
     rewrite lookup_on_obj. destruct (Z.eqb_spec a' a); [subst|apply Hok].
@@ -154,7 +176,8 @@ Lemma Inv_ext s t :
   (forall a, lookup t a = lookup s a) -> kp t = kp s -> journal t = journal s ->
   dirties t = dirties s -> touched t = touched s -> Inv s -> Inv t.
 Proof.
-  intros HL K J D T [A B C E]. split.
+  intros HL K J D T [Z0 A B C E]. split.
+  - rewrite K. exact Z0.
   - intros a o. rewrite HL, K. apply A.
   - rewrite J. eapply jok_ext; eauto.
   - intro a. rewrite D, J. apply C.
@@ -185,7 +208,8 @@ Lemma jpair_dirtied a o e o' : jpair a o e o' -> dirtied e = Some a.
 Proof. destruct 1; reflexivity. Qed.
 Lemma jpair_ok kp0 a o e o' : jpair a o e o' -> obj_ok kp0 a o -> obj_ok kp0 a o'.
 Proof.
-  destruct 1; intro Hok; try (apply (obj_ok_fields _ _ o); try reflexivity; exact Hok).
+  destruct 1; intro Hok;
+    try (apply (obj_ok_fields _ _ o); try reflexivity; try (left; reflexivity); try (right; split; reflexivity); exact Hok).
   apply obj_ok_with_dirty; assumption.
 Qed.
 Lemma jpair_origin a o e o' : jpair a o e o' -> origin o' = origin o.
@@ -230,7 +254,7 @@ Qed.
 
 Lemma Inv_prim s t : prim s t -> Inv s -> Inv t.
 Proof.
-  intros Hp HI. pose proof HI as [A B C E]. destruct Hp.
+  intros Hp HI. pose proof HI as [Z0 A B C E]. destruct Hp.
   - eapply Inv_ext; eauto.
   - (* recache *)
     split; auto.
@@ -241,7 +265,7 @@ Proof.
     destruct (Inv_push_bookkeeping s e C E) as [C' E'].
     assert (Hl' : lookup (set_obj (push s e) a o') a = Some o') by (rewrite lookup_set_obj, Z.eqb_refl; reflexivity).
     destruct (jpair_undo a o e o' _ H0 Hl') as (Hpre & o'' & Ho'' & Hlk).
-    split; auto.
+    split; auto; try (cbn [kp set_obj set_objs]; rewrite ?kp_push; exact Z0).
     + intros a' x. rewrite lookup_set_obj. cbn [kp set_obj set_objs]. rewrite kp_push.
       destruct (Z.eqb_spec a' a); [subst; intros [= <-]; eapply jpair_ok; eauto|rewrite lookup_push; apply A].
     + cbn [journal set_obj set_objs]. rewrite journal_push. split; [exact Hpre|].
@@ -251,18 +275,19 @@ Proof.
       * rewrite lookup_push. apply ole_refl.
   - (* createObjectChange *)
     destruct (Inv_push_bookkeeping s (ECreate a) C E) as [C' E'].
-    split; auto.
+    split; auto; try (cbn [kp set_obj set_objs]; rewrite ?kp_push; exact Z0).
     + intros a' x. rewrite lookup_set_obj. cbn [kp set_obj set_objs]. rewrite kp_push.
-      destruct (Z.eqb_spec a' a); [subst; intros [= <-]; apply obj_ok_new|rewrite lookup_push; apply A].
+      destruct (Z.eqb_spec a' a); [subst; intros [= <-]; apply obj_ok_new; left; reflexivity|rewrite lookup_push; apply A].
     + cbn [journal set_obj set_objs]. rewrite journal_push. split; [exact I|]. cbn [undo].
       eapply jok_ext; [| |exact B]; [cbn [kp del_obj set_obj set_objs]; apply kp_push|].
       intro a'. rewrite lookup_del_obj, lookup_set_obj. cbn [kp set_obj set_objs]. rewrite kp_push.
       destruct (Z.eqb_spec a' a); [subst; rewrite H; apply lookup_none_kobj, H|apply lookup_push].
   - (* resetObjectChange *)
     destruct (Inv_push_bookkeeping s (EReset a p) C E) as [C' E'].
-    split; auto.
+    split; auto; try (cbn [kp set_obj set_objs]; rewrite ?kp_push; exact Z0).
     + intros a' x. rewrite lookup_set_obj. cbn [kp set_obj set_objs]. rewrite kp_push.
-      destruct (Z.eqb_spec a' a); [subst; intros [= <-]; apply (obj_ok_fields _ _ blank_obj); try reflexivity; apply obj_ok_new|].
+      destruct (Z.eqb_spec a' a); [subst; intros [= <-]; apply (obj_ok_fields _ _ blank_obj); try reflexivity;
+                                   [right; split; reflexivity|apply obj_ok_new; left; reflexivity]|].
       rewrite lookup_set_obj. destruct (Z.eqb_spec a' a); [contradiction|]. rewrite lookup_push. apply A.
     + cbn [journal set_obj set_objs]. rewrite journal_push. split.
       * cbn [pre kp set_obj set_objs]. rewrite kp_push. apply A, H.
@@ -271,9 +296,9 @@ Proof.
   - (* refund / log / access-list entries *)
     assert (HI0 : Inv s0).
     { eapply Inv_ext; [| | | | |exact HI]; auto. intro a. apply lookup_ext; auto. }
-    destruct HI0 as [A0 B0 C0 E0].
+    destruct HI0 as [Z1 A0 B0 C0 E0].
     destruct (Inv_push_bookkeeping s0 e C0 E0) as [C' E'].
-    split; auto.
+    split; auto; try (rewrite ?kp_push; exact Z1).
     + intros a' x. rewrite lookup_push, kp_push. apply A0.
     + rewrite journal_push. split; [destruct e; try discriminate; exact I|].
       eapply jok_ext; [| |exact B0]; [rewrite kp_undo; apply kp_push|].
@@ -434,14 +459,15 @@ Proof. destruct e; simpl; try reflexivity; apply touched_on_obj. Qed.
 
 Lemma Inv_pop_undo s : Inv s -> Inv (pop_undo s).
 Proof.
-  intros [A B C E]. unfold pop_undo. destruct (journal s) as [|e rest] eqn:Hj;
-    [split; [exact A|rewrite Hj; exact B|intro; rewrite Hj; apply C|exact E]|].
+  intros [Z0 A B C E]. unfold pop_undo. destruct (journal s) as [|e rest] eqn:Hj;
+    [split; [exact Z0|exact A|rewrite Hj; exact B|intro; rewrite Hj; apply C|exact E]|].
   simpl in B. destruct B as [Hp Hj'].
-  pose proof (objs_ok_undo e s A Hp) as A'.
+  pose proof (objs_ok_undo e s Z0 A Hp) as A'.
+  assert (Z0' : code_inv (kp (undo e s))) by (rewrite kp_undo; exact Z0).
   assert (Hcount : forall a, count_dirty a rest =
                              dirties s a - match dirtied e with Some b => if b =? a then 1 else 0 | None => 0 end).
   { intro a. rewrite C. simpl. lia. }
-  destruct (dirtied e) as [b|] eqn:Hd; split; cbn [journal dirties touched set_journal].
+  destruct (dirtied e) as [b|] eqn:Hd; split; cbn [journal dirties touched set_journal]; try exact Z0'.
   - intros a o Hl. apply (A' a o). rewrite <- Hl. apply lookup_ext; reflexivity.
   - eapply jok_ext; [| |exact Hj']; [reflexivity|]. intro a. apply lookup_ext; reflexivity.
   - intro a. rewrite Hcount, dirties_undo. unfold upd.
@@ -456,10 +482,10 @@ Qed.
 Lemma Inv_unwind_k n : forall s, Inv s -> Inv (unwind_k n s).
 Proof. induction n; intros s H; simpl; auto. apply IHn, Inv_pop_undo, H. Qed.
 
-Lemma Inv_new k : Inv (new_sdb k).
+Lemma Inv_new k : code_inv k -> Inv (new_sdb k).
 Proof.
-  split; simpl; auto; try lia.
-  intros a o. rewrite lookup_def. simpl. apply obj_ok_kobj.
+  intro Hc. split; simpl; auto; try lia.
+  intros a o. rewrite lookup_def. simpl. apply obj_ok_kobj, Hc.
 Qed.
 
 Lemma core_step_eq o f :
